@@ -1,18 +1,57 @@
-// Native replay for contract K17b: the real parmcb::is_bfs_reachable on an undirected multigraph given as an edge list.
-//   e3_bfs --replay n s t max_hops a0,b0,a1,b1,...     (edges in insertion order; "-" for none)
-// The answer is compared with an independent level-by-level computation.
+// Native replay for contracts K17b / K18d: the real parmcb::is_bfs_reachable and parmcb::dijkstra on an undirected
+// multigraph given as an edge list.
+//   e3_bfs --replay n s t max_hops a0,b0,a1,b1,...            (edges in insertion order; "-" for none)
+//   e3_bfs --replay-dijkstra n s a0,b0,w0,a1,b1,w1,...         (integer weights)
+// The answers are compared with independent computations (hop sets; Bellman-Ford).
 #include <vector>
 #include <string>
 #include <iostream>
 #include <sstream>
 #include <queue>
 #include <boost/graph/adjacency_list.hpp>
+#include <tuple>
+#include <limits>
+#include <boost/property_map/function_property_map.hpp>
 #include <parmcb/detail/bfs.hpp>
+#include <parmcb/detail/dijkstra.hpp>
 
 typedef boost::adjacency_list<boost::vecS, boost::vecS, boost::undirectedS, boost::no_property,
         boost::property<boost::edge_weight_t, double>> G;
 
+typedef boost::adjacency_list<boost::vecS, boost::vecS, boost::undirectedS, boost::no_property,
+        boost::property<boost::edge_weight_t, long>> GL;
+
+static int replay_dijkstra(int argc, char **argv) {
+    if (argc < 5) return 3;
+    int n = atoi(argv[2]), s = atoi(argv[3]);
+    std::vector<long> ev; { std::string e = argv[4]; if (e != "-") { std::stringstream ss(e); std::string tok; while (std::getline(ss, tok, ',')) ev.push_back(atol(tok.c_str())); } }
+    typedef GL::vertex_descriptor V; typedef GL::edge_descriptor E;
+    GL g(n);
+    for (size_t i = 0; i + 2 < ev.size(); i += 3) boost::add_edge(ev[i], ev[i + 1], ev[i + 2], g);
+    auto wm = boost::get(boost::edge_weight, g);
+    auto im = boost::get(boost::vertex_index, g);
+    const long INF = (std::numeric_limits<long>::max)();
+    std::vector<long> dist(n, INF);
+    boost::function_property_map<parmcb::detail::VertexIndexFunctor<GL, long>, V, long&> dist_map(parmcb::detail::VertexIndexFunctor<GL, long>(dist, im));
+    std::vector<std::tuple<bool, E>> pred(n, std::make_tuple(false, E()));
+    boost::function_property_map<parmcb::detail::VertexIndexFunctor<GL, std::tuple<bool, E>>, V, std::tuple<bool, E>&> pred_map(
+            parmcb::detail::VertexIndexFunctor<GL, std::tuple<bool, E>>(pred, im));
+    parmcb::dijkstra(g, wm, (V) s, dist_map, pred_map);
+    std::vector<long> d(n, INF); d[s] = 0;
+    for (int r = 0; r < n; r++) for (size_t i = 0; i + 2 < ev.size(); i += 3) { long a = ev[i], b = ev[i + 1], w = ev[i + 2];
+        if (d[a] != INF && d[a] + w < d[b]) d[b] = d[a] + w; if (d[b] != INF && d[b] + w < d[a]) d[a] = d[b] + w; }
+    for (int v = 0; v < n; v++) {
+        bool vis = (v == s) || std::get<0>(pred[v]);
+        if ((d[v] != INF) != vis) { std::cout << "REPLAY-FAIL dijkstra(s=" << s << "): vertex " << v << (vis ? " visited but unreachable" : " reachable but not visited") << std::endl; return 1; }
+        if (vis && dist[v] != d[v]) { std::cout << "REPLAY-FAIL dijkstra(s=" << s << "): dist[" << v << "]=" << dist[v] << " but the shortest-path distance is " << d[v] << std::endl; return 1; }
+        if (v != s && vis) { E e = std::get<1>(pred[v]); long a = boost::source(e, g), b = boost::target(e, g); long o = (a == v) ? b : a;
+            if ((a != v && b != v) || dist[o] + wm[e] != dist[v]) { std::cout << "REPLAY-FAIL dijkstra(s=" << s << "): predecessor edge of " << v << " is not tight" << std::endl; return 1; } }
+    }
+    std::cout << "REPLAY-OK" << std::endl; return 0;
+}
+
 int main(int argc, char **argv) {
+    if (argc >= 2 && std::string(argv[1]) == "--replay-dijkstra") return replay_dijkstra(argc, argv);
     if (argc < 7 || std::string(argv[1]) != "--replay") { std::cerr << "usage: e3_bfs --replay n s t max_hops edges" << std::endl; return 3; }
     int n = atoi(argv[2]), s = atoi(argv[3]), t = atoi(argv[4]); std::size_t h = (std::size_t) atol(argv[5]);
     std::vector<int> ev; { std::string e = argv[6]; if (e != "-") { std::stringstream ss(e); std::string tok; while (std::getline(ss, tok, ',')) ev.push_back(atoi(tok.c_str())); } }
